@@ -383,7 +383,7 @@ def run(chk):
               "theorem spec_ok : specOK table = true := by decide +kernel\n"
               "theorem vocab_ok : vocabOK table = true := by decide +kernel\n"
               "theorem holds : C02_full table := C02_full_of_tableOK table table_ok spec_ok vocab_ok\n#print axioms holds\n"
-              "theorem unique (e : E) (he : E.ok table L e = true) := C02_parse_unique table table_ok e he\n#print axioms unique\n")
+              "theorem unique (e : E) (he : E.ok table L e = true) : ∀ p, parse (render table e) = some p → p = denote table e :=\n  (C02_parse_unique table table_ok e he).2.1\n#print axioms unique\n")
     else:
         ob = "theorem table_not_ok : tableOK L table = false := by decide +kernel\n#print axioms table_not_ok\n"
     gen = ("import Bptk.Props.C02\nimport Bptk.Gen.C02Table\n/-! GENERATED on every run. -/\nnamespace Bptk.C02.Gen\nopen Bptk.Py\n" + ob + "end Bptk.C02.Gen\n")
